@@ -323,7 +323,7 @@ def run(ctx):
 
 def replay(case, ctx):
     if case.get('equity'):
-        emb = tuple(case['embedding'])
+        emb = tuple(case.get('embedding') or ctx.embedding)
         P = dict(equity_programs(emb[1], emb[2]))
         pp = [(n, P[n]) for n in case['programs']]
         order = 'given' if case['routes'] == list(S.SYMS[:len(case['routes'])]) else 'reversed'
